@@ -112,7 +112,8 @@ def run(tier, seed):
     # other interpreter hash seeds: the same programs and histories in fresh processes; every number must be
     # bit-identical to the PYTHONHASHSEED=0 run (JSON floats are shortest round-trip representations)
     extra = []
-    ok_progs = [i for i, a in enumerate(ex["ires"]) if a.get("build_error") is None and "harness_error" not in a]
+    ok_progs = [i for i, a in enumerate(ex["ires"]) if a.get("build_error") is None and "harness_error" not in a
+                and len(progs[i]["obs"]) > 1 and progs[i]["obs"][1].get("obs") == "history"]
     sub = ok_progs if tier == "thorough" else ok_progs[:24]
     hs_checks = 0
     for hs in (["1", "4242"] if tier == "quick" else ["1", "7", "4242", "99991"]):
